@@ -70,6 +70,19 @@ var c06Pool = []poolQuery{
 	{Text: `{ strs(c: {b: "1 e:V0"}, d: {b: "1", e: V0}) }`},
 	{Text: `{ strs(c: {b: "s", a: 1}, d: {a: 1, b: "s"}) }`},
 	{Text: `{ strs(a: ["1"], b: ["1 "]) k: strs(a: [" 1"], b: ["1"]) }`},
+	// literals that normalisation leaves in place, the same text in another kind
+	{Text: `{ n(w: "1") }`},
+	{Text: `{ n(w: 1) }`},
+	{Text: `{ n(w: "true") }`},
+	{Text: `{ n(w: true) }`},
+	{Text: `{ n(w: "V1") }`},
+	{Text: `{ n(w: V1) }`},
+	{Text: `query($v: Int!) { n(y: [1, $v]) }`, Vars: map[string]interface{}{"v": 2}},
+	{Text: `query($v: Int!) { n(y: ["1", $v]) }`, Vars: map[string]interface{}{"v": 2}},
+	{Text: `{ ...F } fragment F on Q { req(r: 1) }`},
+	{Text: `{ ...F } fragment F on Q { req(r: "1") }`},
+	{Text: `query($v: String = "1") { n(x: {b: $v}) }`},
+	{Text: `query($v: String = 1) { n(x: {b: $v}) }`},
 	// the same variables used at swapped positions
 	{Text: `query($x: Int!, $y: Int!) { k1: req(r: $x) k2: req(r: $y) }`, Vars: map[string]interface{}{"x": 1, "y": 2}},
 	{Text: `query($x: Int!, $y: Int!) { k1: req(r: $y) k2: req(r: $x) }`, Vars: map[string]interface{}{"x": 1, "y": 2}},
